@@ -186,6 +186,10 @@ def affine_eval(src, known, free=None):
                         raise ZeroDivisionError('0 ** negative')
                     return Affine(a.const ** int(b.const))
                 raise NotAffine('power')
+            if isinstance(node.op, (ast.FloorDiv, ast.Mod)) and a.is_const() and b.is_const():
+                if b.const == 0:
+                    raise ZeroDivisionError('division by zero')
+                return Affine(a.const // b.const if isinstance(node.op, ast.FloorDiv) else a.const % b.const)
             raise NotAffine('operator')
         if isinstance(node, ast.Call) and isinstance(node.func, ast.Name) and not node.keywords:
             args = [ev(x) for x in node.args]
